@@ -174,6 +174,36 @@ def compare(e, o, model: Model, report):
             report("num_in_ports", f">= {mi} (node {n})", o["nin"].get(n))
 
 
+def check_has_link(h, model: Model, report, cap=6):
+    """has_link(src, dst) agrees with the model on every modelled link and on a box of absent ones"""
+    from hugr import Node
+
+    present = Counter(model.links)
+    cands = set(present)
+    live = sorted(model.nodes)[:cap]
+    for s in live:
+        for t in live:
+            for so, to in ((0, 0), (-1, -1), (1, 0), (0, 1), (-1, 0), (0, -1), (2, 3)):
+                cands.add((s, so, t, to))
+    n = 0
+    for (s, so, t, to) in cands:
+        n += 1
+        got = h.has_link(Node(s).out(so), Node(t).inp(to))
+        want = present[(s, so, t, to)] > 0
+        if got is not want:
+            report("has_link", {str((s, so, t, to)): want}, got)
+    return n
+
+
+def check_metadata(h, model: Model, report):
+    from hugr import Node
+
+    for n, d in model.nodes.items():
+        got = dict(h[Node(n)].metadata)
+        if got != d["md"]:
+            report("metadata", {n: d["md"]}, {n: got})
+
+
 def invariant(h, report):
     """Structural invariant of the store's internal shape (skipped silently when the private
     attributes do not exist: properties must survive refactoring)."""
